@@ -263,6 +263,10 @@ func gen(seed uint64, tier string) Scenario {
 		}
 		sc.URL = strings.ReplaceAll(sc.URL, "@", "a") + "?" + q
 	}
+	// a blank password ("user:@host" or "user@host" in the URL); real client workloads
+	if x := core.HS(seed, "c10.blankpass", "", 0); sc.Kind != "C" && x%100 < 5 {
+		sc.Pass = ""
+	}
 	// a URL with an empty path, with or without a query (real client, play flow; hash-derived
 	// so that no other choice moves)
 	if x := core.HS(seed, "c10.emptypath", "", 0); sc.Kind != "C" && !sc.Record && x%100 < 7 {
@@ -276,6 +280,9 @@ func gen(seed uint64, tier string) Scenario {
 	case "A":
 		if r.Bool(0.15) {
 			sc.Wrong = []string{"user", "pass"}[r.Intn(2)]
+			if sc.Pass == "" {
+				sc.Wrong = "user"
+			}
 		}
 	case "B":
 		sc.Realm = genRealm(r)
@@ -392,7 +399,12 @@ func genSteps(r *core.Rand, sc *Scenario) []Step {
 			continue
 		}
 		if i == 0 || (i == 1 && preempt) || r.Bool(0.15) {
-			steps = append(steps, Step{Method: f.m, Track: f.t, Cred: "none"})
+			st := Step{Method: f.m, Track: f.t, Cred: "none"}
+			// hash-derived so that no other choice moves
+			if x := core.HS(sc.Seed, "c10.useless", "", uint64(len(steps))); x%100 < 12 {
+				st.Useless = []string{"bearer", "empty-basic", "empty-digest"}[(x>>8)%3]
+			}
+			steps = append(steps, st)
 		}
 		if i == perturbAt {
 			steps = append(steps, genPerturb(r, sc, f.m, f.t))
